@@ -344,8 +344,8 @@ class EngineA:
             return slice(a, None, None)
         if form == "to":
             return slice(None, b, None)
-        if not write and g.random() < cfg["p_neg"]:
-            # negative bounds (reads only): same non-empty range expressed from the end
+        if g.random() < cfg["p_neg"]:
+            # negative bounds: same non-empty range expressed from the end
             na = a - ext
             nb = b - ext
             if nb == 0:
@@ -496,7 +496,10 @@ class EngineA:
             key = self._region_key(m, g, cfg, False)
             if all(isinstance(k, int) for k in key):
                 return None
-            return {"op": op, "key": enc(key)}
+            st = {"op": op, "key": enc(key)}
+            if any(isinstance(k, list) for k in key) and g.random() < 0.4:
+                st["lists_as_arrays"] = True  # index lists handed over as numpy arrays
+            return st
         if op == "w_full":
             extra = 0
             if g.random() < cfg["p_ordergrow"] and N < MAX_ORDER:
@@ -568,7 +571,10 @@ class EngineA:
                     (0.0 if g.random() < cfg["p_zero"] else self._next_val(counter)) for _ in range(cnt)
                 ]
                 rhs = {"kind": "tensor", "shape": rshape, "vals_f": vals}
-            return {"op": op, "key": enc(key), "rhs": rhs}
+            st = {"op": op, "key": enc(key), "rhs": rhs}
+            if any(isinstance(k, list) for k in key) and g.random() < 0.4:
+                st["lists_as_arrays"] = True
+            return st
         return None
 
     def _gen_vals(self, count: int, g, cfg, counter):
@@ -885,7 +891,7 @@ class EngineA:
                     return self._viol("read_returns_model_value", "r_region", i, f"D[subs of region {key}] = {self._flat(got).tolist()}, model says {wantflat.tolist()}")
                 res.bump("probe:dense_mirrored_by_subscripts")
                 continue
-            got = self._call(lambda: w[name][tuple(key)], f"{name}[region {key}]", "r_region", i)
+            got = self._call(lambda: w[name][self._akey(step, key)], f"{name}[region {key}]", "r_region", i)
             if name == "D":
                 if not isinstance(got, self.ttb.tensor):
                     return self._viol("read_returns_model_value", "r_region", i, f"D[{key}] returned {type(got).__name__}, expected tensor")
@@ -1050,7 +1056,10 @@ class EngineA:
                         return False
                     continue
                 if (k.start is not None and k.start < 0) or (k.stop is not None and k.stop < 0):
-                    return False
+                    # bounds counted from the end: only inside the present extent, selecting something
+                    if new or any(b is not None and not (-m.shape[d] <= b <= m.shape[d]) for b in (k.start, k.stop)) or len(range(m.shape[d])[k]) == 0:
+                        return False
+                    continue
                 if new and k.stop is None:
                     return False
                 if k.stop is not None and k.stop > self._maxext + 2:
@@ -1064,6 +1073,13 @@ class EngineA:
                 if k < 0 and (new or -k > m.shape[d]):
                     return False
         return True
+
+    @staticmethod
+    def _akey(step, key):
+        """The region key as handed to the library: index lists as python lists, or as numpy arrays."""
+        if step.get("lists_as_arrays"):
+            return tuple(np.array(k, dtype=int) if isinstance(k, list) else k for k in key)
+        return tuple(key)
 
     def _rhs_array(self, rhs):
         shape = tuple(rhs["shape"])
@@ -1099,22 +1115,22 @@ class EngineA:
         ttb = self.ttb
         if rhs["kind"] == "scalar":
             def do_d():
-                w["D"][tuple(key)] = rhs["val"]
+                w["D"][self._akey(step, key)] = rhs["val"]
 
             def do_s():
-                w["S"][tuple(key)] = rhs["val"]
+                w["S"][self._akey(step, key)] = rhs["val"]
         elif rhs["kind"] == "self":
             def do_d():
-                w["D"][tuple(key)] = w["D"]
+                w["D"][self._akey(step, key)] = w["D"]
 
             def do_s():
-                w["S"][tuple(key)] = w["S"]
+                w["S"][self._akey(step, key)] = w["S"]
         else:
             rhs_objs = {}
 
             def do_d():
                 rhs_objs["D"] = ttb.tensor(np.asfortranarray(R.copy()))
-                w["D"][tuple(key)] = rhs_objs["D"]
+                w["D"][self._akey(step, key)] = rhs_objs["D"]
 
             def do_s():
                 nzs = np.argwhere(R != 0)
@@ -1123,7 +1139,7 @@ class EngineA:
                 else:
                     val = ttb.sptensor(shape=rshape)
                 rhs_objs["S"] = val
-                w["S"][tuple(key)] = val
+                w["S"][self._akey(step, key)] = val
 
             res.bump("probe:region_write_tensor_rhs")
         if step.get("dense_via_subs"):
